@@ -46,7 +46,9 @@ def run(ctx: Ctx, rep: Report, tier: str) -> None:  # noqa: C901
     dec = ctx.func(f"helpers.{DECORATOR}")
     wrappers = [g for g in ctx.prog.funcs if g.parent is dec]
     rep.require(len(wrappers) == 1, "the decorator no longer defines exactly one wrapper")
-    w = wrappers[0]
+    from .normalise import normalised
+
+    w = normalised(ctx, wrappers[0], "multiret")  # the argument checks may live in a helper that returns the step to use
     wcfg = ctx.cfg(w)
     method_param = dec.params[0]
     call_nodes = [n for n in wcfg.live if n.ast is not None and any(isinstance(x, ast.Call) and isinstance(x.func, ast.Name) and x.func.id == method_param for x in ast.walk(n.ast))]
@@ -72,16 +74,38 @@ def run(ctx: Ctx, rep: Report, tier: str) -> None:  # noqa: C901
     guards = [n for n in own_nodes(w.node) if isinstance(n, ast.If) and any(isinstance(s, ast.Raise) for s in n.body)]
     pre_guards = [g for g in guards if wcfg.node_of(g.body[0]) is not None and _before(wcfg, g, cn)]
     post_guards = [g for g in guards if g not in pre_guards]
-    acc_start = IntSet.all()
-    for g in pre_guards:
-        names = {x.id for x in ast.walk(g.test) if isinstance(x, ast.Name)}
-        if step in names:
-            continue
+    def holds(test: ast.AST, truth: bool, var: str, env) -> Optional[IntSet]:
+        """Values of `var` for which the atom has this truth value (None when the atom is not about var / not an interval)."""
+        if var not in {x.id for x in ast.walk(test) if isinstance(x, ast.Name)}:
+            return None
         try:
-            bad = cond_to_intset(g.test, lambda x: isinstance(x, ast.Name) and x.id == start, fold({}))
+            st_ = cond_to_intset(test, lambda x: isinstance(x, ast.Name) and x.id == var, fold(env))
         except NotInterval:
-            continue
-        acc_start = acc_start.intersect(bad.complement())
+            return None
+        return st_ if truth else st_.complement()
+
+    def accepted(var: str, env, other: str) -> IntSet:
+        """Union over the paths that reach the wrapped call (feasible under env) of the values of var they admit."""
+        acc = IntSet.empty()
+        for p_ in paths_to_call:
+            cur = IntSet.all()
+            feasible_ = True
+            for t_, tr_ in p_.atoms:
+                names_ = {x.id for x in ast.walk(t_) if isinstance(x, ast.Name)}
+                if var in names_ and (other not in names_ or other in env):
+                    h_ = holds(t_, tr_, var, env)
+                    if h_ is not None:
+                        cur = cur.intersect(h_)
+                elif other in names_ and other in env and var not in names_:
+                    v_ = folder.fold(t_, w.module, env)
+                    if known(v_) and bool(v_) != tr_:
+                        feasible_ = False
+                        break
+            if feasible_:
+                acc = acc.union(cur)
+        return acc
+
+    acc_start = accepted(start, {}, step)
     rep.instance()
     want = IntSet([(0, SEQ_MAX)])
     if acc_start == want:
@@ -90,16 +114,7 @@ def run(ctx: Ctx, rep: Report, tier: str) -> None:  # noqa: C901
         rep.violation(w.qualname, f"accepted start {acc_start}", f"the property names start in {want}", where(w), inp="resequence(start=4294967296) / resequence(start=-1)")
     # accepted step when start > 0, and when start == 0
     for sval, label in ((1, "start > 0"), (0, "start == 0")):
-        acc = IntSet.all()
-        for g in pre_guards:
-            names = {x.id for x in ast.walk(g.test) if isinstance(x, ast.Name)}
-            if step not in names:
-                continue
-            try:
-                bad = cond_to_intset(g.test, lambda x: isinstance(x, ast.Name) and x.id == step, fold({start: sval}))
-            except NotInterval:
-                continue
-            acc = acc.intersect(bad.complement())
+        acc = accepted(step, {start: sval}, start)
         rep.instance()
         if sval == 1:
             if acc == IntSet([(1, POS)]):
@@ -113,16 +128,23 @@ def run(ctx: Ctx, rep: Report, tier: str) -> None:  # noqa: C901
                 rep.violation(w.qualname, f"accepted step when {label}: {acc}", "start 0 removes all numbers whatever the step", where(w), inp="resequence(start=0, step=0)")
     # start == 0 forces step = 0
     rep.instance()
-    forced = False
+    forced = None
     for p in paths_to_call:
-        zero_path = any(isinstance(t, ast.Name) and t.id == start and not truth for t, truth in p.atoms)
-        if zero_path:
-            v = p.env.get(step)
-            if isinstance(v, ast.Constant) and v.value == 0:
-                forced = True
-            else:
-                forced = False
-                break
+        feas0 = True
+        for t, truth in p.atoms:
+            names_ = {x.id for x in ast.walk(t) if isinstance(x, ast.Name)}
+            if names_ == {start}:
+                v_ = folder.fold(t, w.module, {start: 0})
+                if known(v_) and bool(v_) != truth:
+                    feas0 = False
+        if not feas0:
+            continue
+        # the value the wrapped call receives for step on this path
+        v = deep_resolve(ast.Name(id=src(call.args[2]) if len(call.args) > 2 else step, ctx=ast.Load()), p.env)
+        if isinstance(v, ast.Constant) and v.value == 0:
+            forced = True if forced is None else forced
+        else:
+            forced = False
     if forced:
         rep.ok(f"{w.qualname}: start == 0", "step is forced to 0 before the call", where=where(w))
     else:
